@@ -347,6 +347,12 @@ func (c *Chain) buildTxEntry(h uint32, e *SEntry, rng *rand.Rand) (*ff.Entry, *I
 		ext = ext[:2]
 	case "nosig":
 		ext = ext[:1]
+	case "noext":
+		ext = nil // not even a salt: nothing that could carry an authorisation
+	case "emptyext":
+		ext = [][]byte{{}, {}, {}}
+	case "saltonlyext":
+		ext = [][]byte{ext[0], {}, {}}
 	case "extrasig":
 		ext = append(ext, ext[1], ext[2])
 	case "rcdswap":
